@@ -367,6 +367,15 @@ class Architecture(Node):
     stmts: list = field(default_factory=list)
 
 
+class FormalConv(str):
+    """formal part `type_mark(formal)` of a port association: the string is the formal's name"""
+
+    def __new__(cls, name, conv):
+        o = super().__new__(cls, name)
+        o.conv = conv
+        return o
+
+
 class Parser:
     def __init__(self, src: str):
         self.toks = lex(src)
@@ -757,11 +766,22 @@ class Parser:
         self.eat_p("(")
         res = []
         while True:
-            if not (self.t.kind == "id" and self.peek().kind == "punct" and self.peek().text == "=>"):
+            conv = None
+            if self.t.kind == "id" and self.peek().kind == "punct" and self.peek().text == "(":
+                # type conversion in the formal part:  type_mark(formal) => actual
+                conv = self.ident()
+                self.eat_p("(")
+                formal = self.ident()
+                self.eat_p(")")
+                if not (self.t.kind == "punct" and self.t.text == "=>"):
+                    raise Unsupported("positional / partial association")
+                formal = FormalConv(formal, conv)
+            elif not (self.t.kind == "id" and self.peek().kind == "punct" and self.peek().text == "=>"):
                 if self.t.kind == "kw":
                     self.ident()
                 raise Unsupported("positional / partial association")
-            formal = self.ident()
+            else:
+                formal = self.ident()
             self.eat_p("=>")
             if self.opt_kw("open"):
                 actual = "open"
